@@ -133,7 +133,7 @@ def p_int(itp, name, args, kw, node, st):
         if fl is not None:
             if fl.is_const():
                 return Const(int(fl.c), n.taint)
-            return IntV(fl, n.taint, n.deg['nfft'] if n.deg['nfft'] is not TOP else F(0))
+            return IntV(fl, n.taint)
     return IntV(None, taint_of(v))
 
 
